@@ -1,8 +1,14 @@
 (* C16 — The example JSON parser agrees with encoding/json on the supported subset.
-   Only statements here; each is closed by [exact] of a lemma of JsonSpecProofs.v.
+   Only statements here; each is closed by [exact] of a lemma of JsonSpecProofs.v / JsonProofs.v.
 
-   Reading guide (phase 1: the specification; the engine-level theorems C16_no_panic / C16_reject /
-   C16_accept about the grammar as a [pexpr] evaluated by the engine model follow in phase 2).
+   Reading guide.  Part I (theorems C16_spec_...): the specification and the grammar rules.  Part II (C16_no_panic,
+   C16_reject, C16_accept, C16_engine_...): the ENGINE MODEL (Engine.parse / Top.evaluate, the model of the
+   combinators validated by ./check ENG) run on the example grammar written as a [pexpr] term
+   (Json.json_rules / json_root: no Memoize, [&value] is a plain reference) computes exactly the
+   specification.  [json_eval_fuel cf fuel raw] = Top.evaluate on text.NewFile's normalised bytes at base
+   offset 1, [cf] = strconv.ParseFloat (any function that fails exactly on the range error: [cf_ok]);
+   [to_engine cf v] = the Go value of a specification value (float64 by [cf], map built by
+   interpreter.Object).  Bytes are bytes ([bytes_ok raw]: every element < 256).
    [spec_parse : list N -> option value] (JsonSpec.v) is the DIRECT specification of the example
    grammar examples/json/json/parser.go: a recursive descent over the CR LF-normalised bytes with the
    grammar's whitespace modes (no line break before ',' and ':'), its ordered Choice, SepBy without a
@@ -15,7 +21,8 @@
    The tie between [spec_parse] and the real parser, and between [spec_parse] and encoding/json on
    [json_subset], is the differential run of ./check C16 (harness c16_harness). *)
 From Coq Require Import List NArith ZArith.
-From Parsley Require Import Base FileSet Reader Literals JsonSpec JsonSpecProofs.
+From Parsley Require Import Base FileSet Utf8 Reader Literals JsonSpec JsonSpecProofs.
+From Parsley Require Import Grammar Engine Top Json JsonProofs.
 Import ListNotations.
 Open Scope N_scope.
 
@@ -77,3 +84,60 @@ Print Assumptions C16_string_rule_sound.
 Theorem C16_string_rule_complete : forall lex v rest, string_lit lex v -> tok_string false (lex ++ rest) = Some (v, rest).
 Proof. exact tok_string_complete. Qed.
 Print Assumptions C16_string_rule_complete.
+
+(* ================================================================== *)
+(* Part II — the engine model on the example grammar                     *)
+
+(* NO PANIC, for every byte string and every fuel: interpreter.Select's index, interpreter.Object's type
+   assertion on the member node, its Children()[0]/[2], key.(string), and the rule reference are all safe. *)
+Theorem C16_no_panic : forall cf, cf_ok cf -> forall raw, bytes_ok raw -> forall fuel,
+  json_eval_fuel cf fuel raw <> Panic.
+Proof. exact no_panic. Qed.
+Print Assumptions C16_no_panic.
+
+(* REJECT: a returned value is the value of a derivation of the WHOLE input by the grammar rules. *)
+Theorem C16_reject : forall cf, cf_ok cf -> forall raw, bytes_ok raw -> forall fuel v',
+  json_eval_fuel cf fuel raw = Ok (EvValue v') ->
+  exists v, json_doc v raw /\ spec_parse raw = Some v /\ v' = to_engine cf v.
+Proof. exact reject. Qed.
+Print Assumptions C16_reject.
+
+(* ACCEPT: every document of the grammar evaluates to its value (Choice's first match, SepBy's single
+   path, LeftTrim/RightTrim lose nothing), with any fuel from some point on. *)
+Theorem C16_accept : forall cf, cf_ok cf -> forall raw, bytes_ok raw -> forall v, json_doc v raw ->
+  exists f0, forall f, (f0 <= f)%nat -> json_eval_fuel cf f raw = Ok (EvValue (to_engine cf v)).
+Proof. exact accept. Qed.
+Print Assumptions C16_accept.
+
+(* An input without a derivation gives a PARSE error (never a value, never an evaluation error). *)
+Theorem C16_rejects_underivable : forall cf, cf_ok cf -> forall raw, bytes_ok raw -> (forall v, ~ json_doc v raw) ->
+  exists f0, forall f, (f0 <= f)%nat -> exists e, json_eval_fuel cf f raw = Ok (EvParseErr e).
+Proof. exact reject_none. Qed.
+Print Assumptions C16_rejects_underivable.
+Theorem C16_no_eval_error : forall cf, cf_ok cf -> forall raw, bytes_ok raw -> forall fuel e,
+  json_eval_fuel cf fuel raw <> Ok (EvEvalErr e).
+Proof. exact no_eval_error. Qed.
+Print Assumptions C16_no_eval_error.
+
+(* The model IS the specification: with any fuel the evaluation either runs out of fuel or returns the
+   specification's value / a parse error where the specification has none. *)
+Theorem C16_engine_is_spec : forall cf, cf_ok cf -> forall raw, bytes_ok raw -> forall fuel,
+  json_eval_fuel cf fuel raw = OutOfFuel \/
+  match spec_parse raw with
+  | Some v => json_eval_fuel cf fuel raw = Ok (EvValue (to_engine cf v))
+  | None => exists e, json_eval_fuel cf fuel raw = Ok (EvParseErr e)
+  end.
+Proof. exact engine_any_fuel. Qed.
+Print Assumptions C16_engine_is_spec.
+Theorem C16_engine_enough_fuel : forall cf, cf_ok cf -> forall raw, bytes_ok raw -> exists f0,
+  match spec_parse raw with
+  | Some v => json_eval_fuel cf f0 raw = Ok (EvValue (to_engine cf v))
+  | None => exists e, json_eval_fuel cf f0 raw = Ok (EvParseErr e)
+  end.
+Proof. exact engine_is_spec. Qed.
+Print Assumptions C16_engine_enough_fuel.
+
+(* the converter used by the check (it keeps the lexeme) is a faithful ParseFloat in the sense of [cf_ok] *)
+Theorem C16_check_converter_ok : cf_ok cf_lexeme.
+Proof. exact cf_lexeme_ok. Qed.
+Print Assumptions C16_check_converter_ok.
